@@ -39,7 +39,9 @@ from harness import replay as rp
 from harness.armi_env import armi_ready
 
 MODDIR = os.path.join(common.SPEC, "settings")
-ABS_NAMES = ("P", "Q", "R", "V", "Z")
+ABS_NAMES = ("P", "N", "Q", "R", "V", "Z")
+OLD_ABS = {"Po": "P", "No": "N"}            # abstract old names and the abstract setting they belong to
+INV_ORDER = ("N", "No", "Po", "Xk", "Zz")   # the order SettingsCase_mc!St lists reader.invalidSettings in
 UNKNOWN_NAME = "verifNoSuchSetting"
 ADHOC_NAME, ADHOC_VALUE = "zzVerifAdHoc", 7   # the ad-hoc setting Settings.modified creates for a name that is no setting ("Xk")
 
@@ -85,9 +87,9 @@ class Lib:
 
     def _library(self, n):
         e = self.entries[n]
-        dflt = gs.plain_of_tag(e["default"])
+        dflt = gs.plain_of_tag(self.law[n]["effDefault"])       # declaration with the plugins' modifiers merged (EffDecl)
         self.default[n] = dflt
-        opts = [gs.plain_of_tag(o) for o in e["options"]]
+        opts = [gs.plain_of_tag(o) for o in self._lst(self.law[n]["effOptions"])]
         vals, seen, nonc, bad = [], set(), collections.defaultdict(list), []
         for c in self.cases[n]:
             if c["r"] == "bad":
@@ -188,7 +190,9 @@ def _value(cs, name, objs=None):
 def run_cases(rep, lib):
     """`cs[name] = raw` once per printed case, from a known non-default previous value."""
     Settings = _settings_cls()
+    gs.register_late(True)      # so that the late plugin's setting has its cases executed too
     cs = Settings()
+    gs.register_late(False)
     objs = dict(cs.items())
     n_ok = n_bad = n_unm = 0
     for name in lib.order:
@@ -241,6 +245,37 @@ def run_cases(rep, lib):
                 rep.violation("case:%s:%s" % (what[0], name), "cs[%r] = %r: %s" % (name, raw, what[1]),
                               {"direction": "case", "setting": name, "case": c})
     return n_ok, n_bad, n_unm
+
+
+def run_decls(rep, lib, order):
+    """The declarations App.getSettings hands out under the current plugin registration order, against SettingSchema!EffDecl
+    (TLC's merge of each declaration with the Option/Default modifiers other plugins contribute): default, options, the
+    initial value, and that an untouched setting counts as default."""
+    Settings = _settings_cls()
+    gs.register_late(True)
+    cs = Settings()
+    gs.register_late(False)
+    n = 0
+    for name, st in cs.items():
+        if name not in lib.law:
+            continue
+        n += 1
+        law = lib.law[name]
+        exp_d = gs.plain_of_tag(law["effDefault"])
+        exp_o = [gs.plain_of_tag(o) for o in lib._lst(law["effOptions"])]
+        what = None
+        if not gs.same(exp_d, gs.plain(st.default)):
+            what = ("default", "default is %r, the merged declaration has %r" % (gs.plain(st.default), exp_d))
+        elif not gs.same(exp_o, [gs.plain(o) for o in (st.options or [])]):
+            what = ("options", "options are %r, the merged declaration has %r" % (st.options, exp_o))
+        elif lib.default_admitted(name) and not gs.same(exp_d, _value(cs, name)):
+            what = ("initial", "a fresh object holds %r, the merged default is %r" % (_value(cs, name), exp_d))
+        elif lib.default_admitted(name) and st.offDefault:
+            what = ("offdefault", "an untouched setting counts as off-default (value %r, default %r)" % (st.value, st.default))
+        if what:
+            rep.violation("decl:%s:%s" % (what[0], name), "plugins registered %s: setting %s: %s" % (order, name, what[1]),
+                          {"direction": "decl", "order": order, "setting": name})
+    return n
 
 
 def run_laws(rep, lib):
@@ -323,7 +358,7 @@ class Gamma:
     def __init__(self, lib, rng, k=0, size=6, everything=False, injective=False, api=None, only=None, with_r=True, exclude=()):
         self.lib, self.k = lib, k
         self.api = api or ("file" if rng.random() < 0.4 else "stream")
-        names = [n for n in lib.order if n != "versions"]
+        names = [n for n in lib.order if n not in ("versions", gs.LATE_SETTING)]
         elig = [n for n in names if lib.vals[n] and (not injective or len(lib.vals[n]) >= 2)]
         elig = [n for n in elig if n not in exclude]
         if only is not None:
@@ -341,17 +376,17 @@ class Gamma:
             r = self._pick([n for n in plain_ if n not in q], size)
         if not with_r:
             q, r = (q + r if everything else q), []
-        self.members = {"P": p, "Q": q, "R": r, "V": ["versions"]}
-        used = set(p) | set(q) | set(r) | {"versions"}
+        self.members = {"P": p, "Q": q, "R": r, "V": ["versions"], "N": [gs.LATE_SETTING]}
+        used = set(p) | set(q) | set(r) | {"versions", gs.LATE_SETTING}
         self.members["Z"] = [n for n in lib.order if n not in used]
         self.cls = {m: a for a, ms in self.members.items() for m in ms}
         self.tok = {}
-        for a in ("P", "Q", "R", "V"):
+        for a in ("P", "Q", "R", "V", "N"):
             for m in self.members[a]:
                 self.tok[m] = self._tokens(m, k)
         for m in self.members["Z"]:
             self.tok[m] = {"d": self._default_tok(m), "x": self._bad(m, k)}
-        self.old = {m: lib.active_old(m)[k % len(lib.active_old(m))] for m in p}
+        self.old = {m: lib.active_old(m)[k % len(lib.active_old(m))] for m in p + [gs.LATE_SETTING]}
         self.unknown = [UNKNOWN_NAME] + sorted(x for n in lib.order for x in lib.expired_old(n))
 
     def _pick(self, pool, size):
@@ -395,12 +430,20 @@ class Gamma:
 
     def file_names(self, n):
         """real file names an abstract file name stands for"""
-        if n == "Po":
-            return [self.old[m] for m in self.members["P"]]
+        if n in OLD_ABS:
+            return [self.old[m] for m in self.members[OLD_ABS[n]]]
         if n == "Zz":
             return list(self.unknown)
         if n == "Xk":
             return [ADHOC_NAME]
+        return list(self.members[n])
+
+    def entry_members(self, n):
+        """the real settings behind the file names of an abstract entry name (None for names no setting has)"""
+        if n in OLD_ABS:
+            return list(self.members[OLD_ABS[n]])
+        if n in ("Zz", "Xk"):
+            return [None] * len(self.file_names(n))
         return list(self.members[n])
 
     def describe(self):
@@ -436,6 +479,7 @@ class Adapter:
         self._n = 0
 
     def build(self, g):
+        gs.register_late(False)           # every behaviour starts without the late plugin
         w = World(g, self.quarantine, self.wd)
         w.cs[1] = self.Settings()
         return w
@@ -456,7 +500,7 @@ class Adapter:
             return g.cls[realname]
         for m, o in g.old.items():
             if o == realname:
-                return "Po"
+                return "No" if m == gs.LATE_SETTING else "Po"
         return "Xk" if realname == ADHOC_NAME else "Zz"
 
     def _regroup(self, w, content, order, bad_first=None):
@@ -491,6 +535,8 @@ class Adapter:
         w.err, w.exc = "", ""
         if n == "New":
             w.cs[a["id"]] = self.Settings()
+        elif n == "Register":             # a plugin with a renamed setting arrives while the process runs
+            gs.register_late(True)
         elif n == "Assign":
             cs = w.cs[a["o"]]
             for m in g.members[a["s"]]:
@@ -560,7 +606,7 @@ class Adapter:
             pairs = []
             for e in a["es"]:
                 names = g.file_names(e["n"])
-                members = g.members["P"] if e["n"] == "Po" else (names if e["n"] != "Zz" else [None] * len(names))
+                members = g.entry_members(e["n"])
                 later = []
                 for fname, m in zip(names, members):
                     if e["n"] == "Zz":
@@ -659,13 +705,13 @@ class Adapter:
         if kind == "SetOld":
             new = collections.OrderedDict()
             for k, v in content.items():
-                new[g.old[k] if target == "P" and k in g.old else k] = v
-            order[a["i"] - 1] = "Po"
+                new[g.old[k] if k in g.members[target] and k in g.old else k] = v
+            order[a["i"] - 1] = {v: k for k, v in OLD_ABS.items()}[target]
             self._set_text(w, self._regroup(w, new, order))
             return
         # SetBad: members of the entry that have a refusable value get it
         names = g.file_names(target)
-        members = g.members["P"] if target == "Po" else names
+        members = g.entry_members(target)
         hit = set()
         for fname, m in zip(names, members):
             if fname in content and g.has_bad(m):
@@ -717,6 +763,10 @@ class Adapter:
                 if a not in exp["val"][o - 1]:
                     continue
                 t = exp["val"][o - 1][a]
+                if a == "N" and o not in exp.get("late", []):
+                    if gs.LATE_SETTING in objs:
+                        return ".late[%d]: the object has the late plugin's setting, the specification's object has not" % o
+                    continue
                 for m in g.members[a]:
                     if m not in objs:
                         return ".val[%d].%s:%s: setting missing" % (o, a, m)
@@ -730,14 +780,14 @@ class Adapter:
         if act is not None and act["n"] == "Read" and exp["err"] == "":
             content = set(_load_text(w.text).keys())
             got_inv = []
-            for ab in ("Po", "Xk", "Zz"):
+            for ab in INV_ORDER:
                 names = [x for x in g.file_names(ab) if x in content]
                 hit = [x for x in names if x in w.inv]
                 if names and len(hit) == len(names):
                     got_inv.append(ab)
                 elif hit:
                     got_inv.append(ab + "?partial")
-            extra = [x for x in w.inv if self._abstract_of(w, x) not in ("Po", "Xk", "Zz")]
+            extra = [x for x in w.inv if self._abstract_of(w, x) not in INV_ORDER]
             if extra:
                 got_inv.append("current:" + extra[0])
             if got_inv != list(exp["inv"]):
@@ -763,7 +813,7 @@ class Adapter:
         want = {}
         for e in ef["es"]:
             names = g.file_names(e["n"])
-            members = g.members["P"] if e["n"] == "Po" else names
+            members = g.entry_members(e["n"])
             for fname, m in zip(names, members):
                 if e["n"] == "Zz":
                     want[fname] = ("any", None)
@@ -899,7 +949,7 @@ def _div(i, d, steps, e, g, observed):
 
 def label_of(e):
     n = e["act"]["n"]
-    if n == "Read" and any(x["n"] == "Po" for x in e["from"]["file"]["es"]):
+    if n == "Read" and any(x["n"] in OLD_ABS for x in e["from"]["file"]["es"]):
         return "ReadOld"
     return n
 
@@ -949,6 +999,7 @@ def _fix_empty(st):
     st["shared"] = _aslist(st["shared"])
     st["kinds"] = _aslist(st.get("kinds", []))
     st["extra"] = _aslist(st.get("extra", []))
+    st["late"] = _aslist(st.get("late", []))
 
 
 def replay_edges(rep, ad, lib, graph, label, rng, size, max_edges=None, rounds=1, exclude=()):
@@ -1013,18 +1064,20 @@ def A(n, **kw):
     return dict(kw, n=n)
 
 
-def run_sweep(rep, ad, lib, graph, rng, thorough, quarantine):
+def run_sweep(rep, ad, lib, graph, rng, thorough, quarantine, brief=False):
     """(a) round trip: all eligible settings at once, value index k, every style, both APIs;
        (b) refusal on read: per setting and refused value, the edited short file is refused and nothing changes."""
     n = nt = 0
     kmax = max(len(v) for v in lib.vals.values())
-    ks = range(kmax) if thorough else range(min(kmax, 3 if _SELFTEST else 6))
+    ks = range(kmax) if thorough else range(min(kmax, 2 if brief else 3 if _SELFTEST else 6))
     seqs = []
     for style in ("short", "medium", "full"):
         w1 = [A("Write", o=1, style=style)] if style != "medium" else [A("Write", o=1, style="short"), A("New"), A("Read", o=2), A("Write", o=1, style="medium")]
         tail = [A("New"), A("Read", o=2)] if style != "medium" else [A("Read", o=2)]
         seqs.append((style, "ca", [A("Assign", o=1, s="Q", r="ca"), A("Assign", o=1, s="P", r="ca")] + w1 + tail))
         seqs.append((style, "b", [A("Assign", o=1, s="V", r="a"), A("Assign", o=1, s="Q", r="b")] + w1 + tail))
+    # every renamed setting at once under its old name
+    seqs.append(("short", "old", [A("Assign", o=1, s="P", r="a"), A("Write", o=1, style="short"), A("SetOld", i=1), A("New"), A("Read", o=2)]))
     paths = [(st, tk, find_path(graph, sq)) for st, tk, sq in seqs]
     for k in ks:
         for i, (style, tk, path) in enumerate(paths):
@@ -1036,6 +1089,9 @@ def run_sweep(rep, ad, lib, graph, rng, thorough, quarantine):
                 at = path[d["step"]]
                 rep.violation(key_of(d, at, "sweep"), "round trip of every setting (value #%d, %s style, %s API) diverges after %s: %s" % (
                     k, style, g.api, json.dumps(at["act"]), d["first_difference"]), dict(d, direction="sweep"))
+    if brief:
+        rep.add_replay("sweep-roundtrip(other plugin order)", n, nt)
+        return n, 0
     # (a') the nested settings (cross-section control, tight coupling, cycle history), alone in a file: every admitted value
     #      (among them the groups with falsy-but-set fields) in every style
     nn = 0
@@ -1061,8 +1117,8 @@ def run_sweep(rep, ad, lib, graph, rng, thorough, quarantine):
     pp = find_path(graph, [A("Assign", o=1, s="P", r="a"), A("Write", o=1, style="short"), A("SetBad", i=1), A("New"), A("Read", o=2)])
     nbad = 0
     for m in lib.order:
-        if m == "versions" or not lib.vals[m] or not lib.bad[m]:
-            continue
+        if m in ("versions", gs.LATE_SETTING) or not lib.vals[m] or not lib.bad[m]:
+            continue      # (the late plugin's setting has its refusals in the late-plugin stories)
         nb = min(len(lib.bad[m]), 12) if thorough else min(len(lib.bad[m]), 1 if _SELFTEST else 2)
         for k in range(nb):
             kk = rng.randrange(len(lib.bad[m]))
@@ -1139,6 +1195,9 @@ class Abstractor:
                 if not g.members[a]:
                     continue
                 toks = ("d",) if a == "Z" else ("d", "a") if a == "V" else ("d", "a", "b")
+                if a == "N" and gs.LATE_SETTING not in objs:
+                    rec[a] = "d"       # the object has no such setting: the specification keeps the slot at "d" (Has)
+                    continue
                 fit = [t for t in toks if all(gs.same(g.tok[m][t]["stored"], _value(None, m, objs)) for m in g.members[a])]
                 rec[a] = fit[0] if len(fit) == 1 else "?"
             out.append(rec)
@@ -1157,10 +1216,10 @@ class Abstractor:
         if style != "hand" and not w.edited:
             # a file as the writer left it is sorted by real name; the specification lists its entries in the writer's
             # order of the abstract names (an order only matters once a user has arranged the file: edits, hand files)
-            seen.sort(key=lambda x: "PQRVZ".index(x) if x in "PQRVZ" else 9)   # (the ad-hoc name sorts last in both)
+            seen.sort(key=lambda x: "PNQRVZ".index(x) if x in "PNQRVZ" else 9)   # (the ad-hoc name sorts last in both)
         for ab in seen:
             names = g.file_names(ab)
-            members = g.members["P"] if ab == "Po" else names
+            members = g.entry_members(ab)
             present = [(f, m) for f, m in zip(names, members) if f in content]
             if len(present) != len(names):
                 es.append({"n": ab, "t": "?partial"})
@@ -1206,7 +1265,7 @@ class Abstractor:
             if n == "SetBad":
                 es[act["i"] - 1]["t"] = "x"
             elif n == "SetOld":
-                es[act["i"] - 1]["n"] = "Po"
+                es[act["i"] - 1]["n"] = {v: k for k, v in OLD_ABS.items()}[es[act["i"] - 1]["n"]]
             else:
                 es.append({"n": "Zz", "t": "a"})
             f = {"es": es, "style": prev["file"]["style"]}
@@ -1217,17 +1276,18 @@ class Abstractor:
             inv = []
             if w.err == "":
                 content = set(_load_text(w.text).keys())
-                for ab in ("Po", "Xk", "Zz"):
+                for ab in INV_ORDER:
                     names = [x for x in g.file_names(ab) if x in content]
                     hit = [x for x in names if x in w.inv]
                     if names and len(hit) == len(names):
                         inv.append(ab)
                     elif hit:
                         inv.append(ab + "?")
-                if any(self.ad._abstract_of(w, x) not in ("Po", "Xk", "Zz") for x in w.inv):
+                if any(self.ad._abstract_of(w, x) not in INV_ORDER for x in w.inv):
                     inv.append("current?")
         return {"n": len(w.cs), "val": self.val(w), "file": f, "err": w.err if w.err in ("", "Invalid", "Nonexistent") else "?" + w.err[:40],
-                "inv": inv, "shared": self.ad._shared(w), "kinds": self.ad._kinds(w), "extra": [o for o in sorted(w.cs) if ADHOC_NAME in w.cs[o]]}
+                "inv": inv, "shared": self.ad._shared(w), "kinds": self.ad._kinds(w), "extra": [o for o in sorted(w.cs) if ADHOC_NAME in w.cs[o]],
+                "late": [o for o in sorted(w.cs) if gs.LATE_SETTING in w.cs[o]], "reg": gs.late_registered()}
 
 
 def trace_driver(ad, lib, hand_files, ntraces, nev, seed, exclude):
@@ -1261,21 +1321,24 @@ def trace_driver(ad, lib, hand_files, ntraces, nev, seed, exclude):
             if any("?" in json.dumps(x) for x in (st["val"], st["file"], st["inv"])):
                 break  # not abstractable any more: TLC rejects this event; nothing after it would be meaningful
         traces.append({"id": "t%d" % t, "ev": ev, "gamma": g.describe()})
+    gs.register_late(False)
     return traces
 
 
 def _random_action(rng, st, hand_files, g):
     n = st["n"]
-    names = [a for a in ("P", "Q", "R", "V", "Z") if g.members[a]]
     es = st["file"]["es"]
     o = rng.randrange(1, n + 1)
-    kind = rng.choice(["Assign", "Assign", "Assign", "AssignBad", "AssignUnknown", "GetSet", "Revert", "Write", "Write", "Read", "Read",
+    names = [a for a in ("P", "Q", "R", "V", "Z") if g.members[a]] + (["N", "N"] if o in st["late"] else [])
+    kind = rng.choice(["Register", "Register", "Assign", "Assign", "Assign", "AssignBad", "AssignUnknown", "GetSet", "Revert", "Write", "Write", "Read", "Read",
                        "SetBad", "SetOld", "AddUnknown", "HandWrite", "New", "Modified", "ModifiedObj", "ModifiedNewKey", "ModifiedBad",
                        "Duplicate"])
 
     def raws(s):
         return ["d"] if s == "Z" else ["d", "a", "ca"] if s == "V" else ["d", "a", "b", "ca"]
 
+    if kind == "Register":
+        return {"n": kind} if not st["reg"] else None
     if kind == "ModifiedNewKey":
         return {"n": kind, "o": o, "id": n + 1} if n < MAXOBJ_TRACE and o not in st["extra"] else None
     if kind in ("Assign", "Modified", "ModifiedObj"):
@@ -1294,7 +1357,7 @@ def _random_action(rng, st, hand_files, g):
             return None
         return {"n": kind, "o": o, "s": s, "r": "x"}
     if kind == "AssignUnknown":
-        return {"n": kind, "o": o, "nm": rng.choice(["Po", "Zz"])}
+        return {"n": kind, "o": o, "nm": rng.choice(["Po", "Zz", "No"] + ([] if o in st["late"] else ["N"]))}
     if kind == "GetSet":
         s = rng.choice(names)
         r = rng.choice(raws(s) + ["x"])
@@ -1312,15 +1375,15 @@ def _random_action(rng, st, hand_files, g):
         return {"n": kind, "o": o} if st["file"]["style"] != "none" else None
     if kind == "SetBad":
         cand = [i + 1 for i, e in enumerate(es) if e["t"] in ("d", "a", "b", "ca") and e["n"] not in ("Zz", "Xk")
-                and any(g.has_bad(m) for m in (g.members["P"] if e["n"] == "Po" else g.members[e["n"]]))]
+                and any(g.has_bad(m) for m in g.entry_members(e["n"]))]
         return {"n": kind, "i": rng.choice(cand)} if cand else None
     if kind == "SetOld":
-        cand = [i + 1 for i, e in enumerate(es) if e["n"] == "P"]
-        return {"n": kind, "i": cand[0]} if cand and not any(e["n"] == "Po" for e in es) else None
+        cand = [i + 1 for i, e in enumerate(es) if e["n"] in ("P", "N") and not any(OLD_ABS.get(x["n"]) == e["n"] for x in es)]
+        return {"n": kind, "i": rng.choice(cand)} if cand else None
     if kind == "AddUnknown":
         return {"n": kind} if st["file"]["style"] != "none" and not any(e["n"] == "Zz" for e in es) else None
     if kind == "HandWrite":
-        ok = [h for h in hand_files if all(g.members[e["n"] if e["n"] not in ("Po", "Zz") else "P"] or e["n"] == "Zz" for e in h)]
+        ok = [h for h in hand_files if all(e["n"] == "Zz" or g.entry_members(e["n"]) for e in h)]
         return {"n": kind, "es": rng.choice(ok)} if ok else None
     if kind == "New":
         return {"n": kind, "id": n + 1} if n < MAXOBJ_TRACE else None
@@ -1332,7 +1395,7 @@ def _random_action(rng, st, hand_files, g):
 # ============================================================================================================
 # part 7: run / replay / selftest
 # ============================================================================================================
-CASE_ACTIONS = ("New", "DoAssign", "DoAssignBad", "DoAssignUnknown", "DoGetSet", "DoRevert", "DoWrite", "DoSetBad", "DoSetOld",
+CASE_ACTIONS = ("New", "Register", "DoModifiedObj", "DoModifiedNewKey", "DoAssign", "DoAssignBad", "DoAssignUnknown", "DoGetSet", "DoRevert", "DoWrite", "DoSetBad", "DoSetOld",
                 "AddUnknown", "DoHandWrite", "DoRead", "DoModified", "DoModifiedBad", "DoDuplicate")
 _SELFTEST = False
 
@@ -1357,15 +1420,18 @@ def run(rep, tier, seed):
 
     # 1. TLC in the background while the real code is exercised: the emission runs and the catalog run (one worker each),
     #    and the exhaustive runs one after the other (four workers)
-    pool = ThreadPoolExecutor(max_workers=5)
+    pool = ThreadPoolExecutor(max_workers=6)
+    gs.register_late(False)
+    gs.set_plugin_order(gs.ORDERS[seed % 2])          # the main body runs under one registration order, part 3b under the other
     f_cat = pool.submit(schema_cases, gs.catalog())
+    f_late = pool.submit(emit_graph, "SettingsCase_emit_late.cfg")
     f_io = pool.submit(emit_graph, "SettingsCase_emit_io%s.cfg" % sfx)
     f_copy = pool.submit(emit_graph, "SettingsCase_emit_copy%s.cfg" % sfx)
     f_all = pool.submit(emit_graph, "SettingsCase_emit_all_thorough.cfg") if thorough and not _SELFTEST else None
 
     def exhaustive():
         out = [("SettingSchema_mc", "SettingSchema_mc.cfg", tlc.run("SettingSchema_mc", "SettingSchema_mc.cfg", MODDIR, workers=2, coverage=False, want_prints=False, timeout=3000))]
-        for cfg in ("SettingsCase_mc%s.cfg" % sfx, "SettingsCase_io%s.cfg" % sfx, "SettingsCase_copy%s.cfg" % sfx):
+        for cfg in ("SettingsCase_late.cfg", "SettingsCase_mc%s.cfg" % sfx, "SettingsCase_io%s.cfg" % sfx, "SettingsCase_copy%s.cfg" % sfx):
             out.append(("SettingsCase_mc", cfg, tlc.run("SettingsCase_mc", cfg, MODDIR, workers=8 if thorough else 4, want_prints=False, timeout=3000)))
         return out
 
@@ -1378,6 +1444,7 @@ def run(rep, tier, seed):
     rep.add_tlc("cases:SettingSchema_cat.cfg", cres, {"settings": len(lib.order), "universe+extras per setting": "~95"})
     if skipped:
         rep.note("settings whose declaration could not be expressed (skipped, not judged): %s" % skipped)
+    nd = run_decls(rep, lib, gs.ORDERS[seed % 2])
     n_ok, n_bad, n_unm = run_cases(rep, lib)
     if n_ok < 1000 or n_bad < 1000:
         raise tlc.MachineryError("too few schema cases executed (%d accepted, %d refused)" % (n_ok, n_bad))
@@ -1409,6 +1476,14 @@ def run(rep, tier, seed):
     n2 = replay_edges(rep, ad, lib, gcopy, "copy-edges", rng, sizes[1], max_edges=4000 if thorough else (300 if _SELFTEST else 580), exclude=quarantine)
     stages["copy-edges"] = round(_t.time() - t0, 1)
     t0 = _t.time()
+    # 3a. the late-plugin stories: a text is read, then a plugin with a renamed setting is registered, then its old name is read
+    lres, glate = f_late.result()
+    rep.add_tlc("edges:SettingsCase_emit_late.cfg", lres)
+    if not any(e["act"]["n"] == "Read" and e["from"]["reg"] and any(x["n"] == "No" for x in e["from"]["file"]["es"]) for e in glate.edges):
+        raise tlc.MachineryError("the late-plugin graph has no read of the late setting's old name")
+    replay_edges(rep, ad, lib, glate, "late-plugin-edges", rng, 3, rounds=1 if _SELFTEST else (4 if thorough else 2), exclude=quarantine)
+    stages["late-edges"] = round(_t.time() - t0, 1)
+    t0 = _t.time()
     if f_all is not None:
         ares, gall = f_all.result()
         rep.add_tlc("edges:SettingsCase_emit_all_thorough.cfg", ares)
@@ -1422,10 +1497,25 @@ def run(rep, tier, seed):
     run_sweep(rep, ad, lib, gio, rng, thorough and not _SELFTEST, quarantine)
     stages["sweep"] = round(_t.time() - t0, 1)
     t0 = _t.time()
+    # 3b. the other registration order of the defining and the modifying plugin: the declarations App.getSettings hands out
+    #     must be the same merged ones (SettingSchema!EffDecl); all cases again, the round-trip sweep and a sample of edges
+    other = gs.ORDERS[(seed + 1) % 2]
+    gs.set_plugin_order(other)
+    nd += run_decls(rep, lib, other)
+    o_ok, o_bad, _ = run_cases(rep, lib)
+    rep.add_replay("schema-cases(other plugin order)", o_ok + o_bad, o_ok + o_bad)
+    run_sweep(rep, ad, lib, gio, rng, False, quarantine, brief=True)
+    replay_edges(rep, ad, lib, gio, "io-edges(other plugin order)", rng, sizes[0], max_edges=600 if thorough else 70, exclude=quarantine)
+    rep.extra["plugin_orders"] = {"main": gs.ORDERS[seed % 2], "other": other, "declarations_compared": nd}
+    gs.set_plugin_order(gs.ORDERS[seed % 2])
+    stages["other-order"] = round(_t.time() - t0, 1)
+    t0 = _t.time()
 
     # 4. code -> spec: random histories
     ntr, nev = (300, 36) if thorough else ((30, 18) if _SELFTEST else (50, 20))
-    traces = trace_driver(ad, lib, _hand_files(gio), ntr, nev, seed, quarantine)
+    hand = _hand_files(gio)
+    hand += [h for h in _hand_files(glate) if h not in hand]
+    traces = trace_driver(ad, lib, hand, ntr, nev, seed, quarantine)
     bad, stats = tracecheck.validate("SettingsCase_trace", "SettingsCase_trace.cfg", MODDIR, traces, timeout=3000)
     stages["traces"] = round(_t.time() - t0, 1)
     rep.add_tlc("trace-validation", stats["tlc"])
@@ -1439,7 +1529,7 @@ def run(rep, tier, seed):
         k = b["matched"]
         nxt = ev[k] if k < len(ev) else {}
         lab = nxt.get("a", {}).get("n", b.get("invariant", "?"))
-        if lab == "Read" and k > 0 and any(x["n"] == "Po" for x in ev[k - 1]["post"].get("file", {}).get("es", [])):
+        if lab == "Read" and k > 0 and any(x["n"] in OLD_ABS for x in ev[k - 1]["post"].get("file", {}).get("es", [])):
             lab = "ReadOld"
         rep.violation("trace:%s" % lab, "recorded history is not a behaviour of SettingsCase at event %d (%s): specification expects %s, observed %s" % (
             k + 1, json.dumps(nxt.get("a")), json.dumps(b.get("mismatch", {}).get("expected", ""))[:500], json.dumps(nxt.get("post"))[:500]),
@@ -1474,8 +1564,9 @@ def run(rep, tier, seed):
         "reading overlays the object: equality of every setting is claimed for a fresh reading object and for full-style files (SettingsCase!RoundTripFresh/RoundTripFull, ReadIsOverlay)",
         "a setting whose default its own schema refuses (SettingSchema!DefaultAdmitted false; reported as default-rejected:<name>) is kept in the untouched class and its default entry is "
         "taken out of full-style texts before they are read, so that the remaining checks stay meaningful",
-        "four settings (a flag list, active/expired/future old names, enforced options extended by Option/Default, a non-empty float-list default) are contributed by a plugin the harness "
-        "registers through armi's plugin hook defineSettings, because no built-in plugin uses those classes",
+        "six settings are contributed by three plugins the harness registers through armi's plugin hook defineSettings, because no built-in plugin uses those mechanisms: one plugin defines "
+        "a flag list, active/expired/future old names, enforced options, a float-list default and a count; a second contributes an Option and two Defaults for them and the two are registered "
+        "in both orders (App.getSettings' direct and cached branches); a third defines a renamed setting and is registered in the middle of behaviours (action Register)",
     )
 
 
@@ -1710,6 +1801,54 @@ def selftest():
     def xs_serialize_drops_falsy(self):
         return {key: val for key, val in self if key != "xsID" and val}
 
+    from armi import apps as armi_apps
+    from armi import settings as armi_settings
+    from armi.settings import fwSettings
+
+    def _getsettings_variant(cached_default_value_only=False, direct_default_value_only=False, cached_options_dropped=False):
+        """App.getSettings with one branch of the modifier merge broken"""
+        def getSettings(self):
+            defs = {st.name: st for st in fwSettings.getFrameworkSettings()}
+            ocache, dcache = collections.defaultdict(list), {}
+            for lst in self._pm.hook.defineSettings():
+                for it in lst:
+                    if isinstance(it, armi_settings.Setting):
+                        defs[it.name] = it
+                        if it.name in ocache:
+                            opts = ocache.pop(it.name)
+                            if not cached_options_dropped:
+                                it.addOptions(opts)
+                        if it.name in dcache:
+                            d = dcache.pop(it.name)
+                            if cached_default_value_only:
+                                it.value = d.value
+                            else:
+                                it.changeDefault(d)
+                    elif isinstance(it, armi_settings.Option):
+                        if it.settingName in defs:
+                            defs[it.settingName].addOption(it)
+                        else:
+                            ocache[it.settingName].append(it)
+                    elif isinstance(it, armi_settings.Default):
+                        if it.settingName in defs:
+                            if direct_default_value_only:
+                                defs[it.settingName].value = it.value
+                            else:
+                                defs[it.settingName].changeDefault(it)
+                        else:
+                            dcache[it.settingName] = it
+            return defs
+        return getSettings
+
+    orig_reader_init = R.__init__
+    shared = {}
+
+    def reader_shared_renamer(self, cs):
+        orig_reader_init(self, cs)
+        if "r" not in shared:
+            shared["r"] = self._renamer
+        self._renamer = shared["r"]
+
     orig_pre = W._preprocessYaml
 
     def no_stamp(self, settingData):
@@ -1772,6 +1911,10 @@ def selftest():
         ("Settings.modified: case-title form renames the original", lambda: P(CS, "modified", _modified_variant(title_to_self=True))),
         ("seed 5: XSModelingOptions.serialize drops '' and [] fields", lambda: P(xss.XSModelingOptions, "serialize", xs_serialize_drops_empty)),
         ("XSModelingOptions.serialize drops every falsy field", lambda: P(xss.XSModelingOptions, "serialize", xs_serialize_drops_falsy)),
+        ("round 2 seed 1: a cached plugin Default only sets the value", lambda: P(armi_apps.App, "getSettings", _getsettings_variant(cached_default_value_only=True))),
+        ("App.getSettings: a directly applied plugin Default only sets the value", lambda: P(armi_apps.App, "getSettings", _getsettings_variant(direct_default_value_only=True))),
+        ("App.getSettings: cached plugin Options are dropped", lambda: P(armi_apps.App, "getSettings", _getsettings_variant(cached_options_dropped=True))),
+        ("round 2 seed 3: one SettingRenamer shared by all readers, never rebuilt", lambda: P(R, "__init__", reader_shared_renamer)),
         ("Settings.getSetting hands out the live Setting", lambda: P(CS, "getSetting", getsetting_live)),
         ("Settings.__setitem__ ignores unknown names", lambda: P(CS, "__setitem__", setitem_ignores_unknown)),
         ("FlagListSetting.dump returns Flags, not names", lambda: P(setting.FlagListSetting, "dump", flags_dump_raw)),
